@@ -792,8 +792,14 @@ pub fn oracle_simple(sink: &mut Sink, line: &str, file: &[u8], k: usize, o: u32)
         }
         Ok(s) => s,
     };
-    if simple.len() as u64 > pc.records {
-        sink.fail("C09", "reader/simple-yields-more-than-records", line, &format!("{} items for recordCount {}", simple.len(), pc.records));
+    // points are the Ok items; the property drives an iterator to its first Err or None (an iterator
+    // that keeps answering Err for an invalid-state value yields no point at all)
+    let simple_points = simple.iter().take_while(|p| p.is_ok()).count();
+    if simple_points as u64 > pc.records {
+        sink.fail("C09", "reader/simple-yields-more-than-records", line, &format!("{} points for recordCount {}", simple_points, pc.records));
+    }
+    if simple.len() >= 200000 && simple_points < simple.len() {
+        sink.stat("observation_simple_iterator_repeats_error_forever");
     }
     if all_valid_states {
         if simple.iter().any(|p| p.is_err()) {
